@@ -15,8 +15,8 @@ EXTENDS Naturals, Sequences, FiniteSets, SequencesExt, TLC
 Sorted(s) == SortSeq(s, LAMBDA a, b : a < b)
 CONSTANTS Mols, MaxLimit,
           Growth     \* only relations whose products are larger than both reactants (the identifiers are ordered by size)
-VARIABLES step2, start, limit, queue, seen, cur, out
-vars == <<step2, start, limit, queue, seen, cur, out>>
+VARIABLES rel, start, limit, queue, seen, cur, out
+vars == <<rel, start, limit, queue, seen, cur, out>>
 None == [on |-> FALSE]
 Pairs == Mols \X Mols
 
@@ -29,15 +29,17 @@ Follow(prod, ch, d) ==
   IN overK(1)
 
 Max2(p) == IF p[1] > p[2] THEN p[1] ELSE p[2]
-Init == /\ step2 \in [Pairs -> SUBSET Mols]
-        /\ (Growth => \A p \in Pairs : \A n \in step2[p] : n > Max2(p))
+\* the single-stage relation as a set of triples <<a, b, n>>: the template makes n of the ordered pair <<a, b>>
+Triples == { t \in Mols \X Mols \X Mols : Growth => t[3] > Max2(<<t[1], t[2]>>) }
+step2 == [p \in Pairs |-> { n \in Mols : <<p[1], p[2], n>> \in rel }]
+Init == /\ rel \in SUBSET Triples
         /\ start \in [1..2 -> Mols]
         /\ limit \in 1..MaxLimit
         /\ queue = << [ch |-> <<start[1], start[2]>>, rest |-> <<>>, d |-> 0], [ch |-> <<start[2], start[1]>>, rest |-> <<>>, d |-> 0] >>
         /\ seen = {} /\ cur = None /\ out = <<>>
 Pop == /\ ~cur.on /\ queue # <<>>
        /\ cur' = [on |-> TRUE, ch |-> Head(queue).ch, rest |-> Head(queue).rest, d |-> Head(queue).d + 1, todo |-> step2[Head(queue).ch]]
-       /\ queue' = Tail(queue) /\ UNCHANGED <<step2, start, limit, seen, out>>
+       /\ queue' = Tail(queue) /\ UNCHANGED <<rel, start, limit, seen, out>>
 Handle == /\ cur.on /\ cur.todo # {}
           /\ \E new \in cur.todo :
                LET prod == <<new>> \o cur.rest
@@ -47,8 +49,8 @@ Handle == /\ cur.on /\ cur.todo # {}
                   ELSE /\ seen' = seen \cup {mix}
                        /\ out' = Append(out, [mix |-> mix, d |-> cur.d])
                        /\ queue' = IF cur.d < limit THEN queue \o Follow(prod, cur.ch, cur.d) ELSE queue
-          /\ UNCHANGED <<step2, start, limit>>
-Finish == cur.on /\ cur.todo = {} /\ cur' = None /\ UNCHANGED <<step2, start, limit, queue, seen, out>>
+          /\ UNCHANGED <<rel, start, limit>>
+Finish == cur.on /\ cur.todo = {} /\ cur' = None /\ UNCHANGED <<rel, start, limit, queue, seen, out>>
 Next == Pop \/ Handle \/ Finish
 Spec == Init /\ [][Next]_vars /\ WF_vars(Next)
 
